@@ -50,6 +50,7 @@ type gfield struct {
 	name string
 	t    *gty
 	tag  string
+	dflt string // generator only: the go-value term of the default declared in the tag ("" = none)
 }
 
 type gty struct {
@@ -1044,11 +1045,28 @@ func obj(c px.Context, t *gty, ve sx.Sexp) core.Result {
 		tags = append(tags, "pos-ambiguous")
 	}
 	attrs := ot.AttributesInfo().Attributes()
+	// fewer positional arguments: the trailing ones that equal their attribute's default are left out
+	trim := pos
+	for n := len(trim); n > 0 && attrs[n-1].Default(trim[n-1]); n-- {
+		trim = trim[:n-1]
+	}
+	if len(trim) < len(pos) {
+		if _, isHash := pos0(trim).(*types.Hash); !(len(trim) == 1 && isHash) {
+			variants = append(variants, trim)
+			names = append(names, "postrim")
+			tags = append(tags, "trimmed-defaults")
+		}
+	}
 	if len(attrs) == 0 || !px.IsInstance(attrs[0].Type(), ih) {
 		variants = append(variants, []px.Value{ih})
 		names = append(names, "named")
 	} else {
 		tags = append(tags, "named-ambiguous")
+	}
+	// the hash with every attribute given (nothing omitted)
+	if full := fullHash(attrs, pos); !full.Equals(ih, nil) && (len(attrs) == 0 || !px.IsInstance(attrs[0].Type(), full)) {
+		variants = append(variants, []px.Value{full})
+		names = append(names, "full")
 	}
 	na := notReflectable(t) != "" || hasNaN(t, gv)
 	pred := "ok"
@@ -1103,8 +1121,28 @@ func flatStruct(t *gty) bool {
 		if f.t.has("struct") || f.t.kind == "iface" || notReflectable(f.t) != "" {
 			return false
 		}
+		if strings.Contains(f.tag, "value=>") {
+			// modelled declared defaults: integers, strings, booleans (and pointers to them)
+			b := f.t
+			if b.kind == "ptr" {
+				b = b.elem
+			}
+			switch b.kind {
+			case "int", "uint", "string", "bool":
+			default:
+				return false
+			}
+		}
 	}
 	return true
+}
+
+func fullHash(attrs []px.Attribute, pos []px.Value) px.OrderedMap {
+	es := make([]*types.HashEntry, len(attrs))
+	for i, a := range attrs {
+		es[i] = types.WrapHashEntry2(a.Name(), pos[i])
+	}
+	return types.WrapHash(es)
 }
 
 func pos0(vs []px.Value) px.Value {
@@ -1278,11 +1316,51 @@ func genVal(r *rand.Rand, t *gty, mode int, depth int) string {
 		}
 		return "(p " + genVal(r, t.elem, mode, depth+1) + ")"
 	}
+	// mode 5: every field with a declared default is at that default, every other pointer is nil (the trailing
+	// attributes of the instance are all at their defaults), the remaining fields are boundary-heavy
 	xs := []string{"st"}
 	for _, f := range t.fields {
-		xs = append(xs, genVal(r, f.t, mode, depth+1))
+		switch {
+		case f.dflt != "" && (mode == 5 || (mode >= 3 && r.Intn(2) == 0)):
+			xs = append(xs, f.dflt)
+		case mode == 5 && f.t.kind == "ptr":
+			xs = append(xs, "nil")
+		case mode == 5:
+			xs = append(xs, genVal(r, f.t, 3, depth+1))
+		default:
+			xs = append(xs, genVal(r, f.t, mode, depth+1))
+		}
 	}
 	return "(" + strings.Join(xs, " ") + ")"
+}
+
+// tagDefault picks a default that can be declared in a tag for a field of type t: (literal, go-value term); the
+// default differs from the Go zero value.  Only integers, strings, booleans and pointers to them.
+func tagDefault(r *rand.Rand, t *gty) (lit string, term string) {
+	switch t.kind {
+	case "int":
+		c := []string{"8", "42", "-7", "100", "-128"}
+		x := c[r.Intn(len(c))]
+		return x, x
+	case "uint":
+		c := []string{"8", "200", "255"}
+		if bits(t.w) >= 16 {
+			c = append(c, "8080", "65535")
+		}
+		x := c[r.Intn(len(c))]
+		return x, x
+	case "string":
+		c := []string{"none", "x1", "a b"}
+		x := c[r.Intn(len(c))]
+		return "'" + x + "'", sx.Str(x).Atom
+	case "bool":
+		return "true", "t"
+	case "ptr":
+		if l, tm := tagDefault(r, t.elem); l != "" {
+			return l, "(p " + tm + ")"
+		}
+	}
+	return "", ""
 }
 
 func randScalar(r *rand.Rand, t *gty) string {
@@ -1389,6 +1467,19 @@ func gen(g *core.G) {
 				emit(t, v)
 			}
 		}
+		hasDflt := false
+		for _, f := range t.fields {
+			hasDflt = hasDflt || f.dflt != ""
+		}
+		if hasDflt {
+			for i := 0; i < 3; i++ {
+				v := genVal(g.Rng, t, 5, 0)
+				if !seen[ts+v] {
+					seen[ts+v] = true
+					emit(t, v)
+				}
+			}
+		}
 	}
 	// 1. exhaustive small universe: every scalar type × every boundary value; every one-constructor type over
 	//    every scalar type × {nil, empty, every boundary value as the single element}
@@ -1449,8 +1540,26 @@ func gen(g *core.G) {
 		n := 1 + g.Rng.Intn(4)
 		for j := 0; j < n; j++ {
 			f := gfield{name: string(rune('A' + j)), t: randType(g.Rng, g.Rng.Intn(depth), j == 1)}
+			if i%2 == 1 && g.Rng.Intn(2) == 0 {
+				// every other struct: fields whose type can carry a declared default
+				ls := []*gty{{kind: "int", w: widths[g.Rng.Intn(5)]}, {kind: "uint", w: widths[g.Rng.Intn(5)]}, {kind: "string"}, {kind: "bool"}}
+				f.t = ls[g.Rng.Intn(len(ls))]
+				if g.Rng.Intn(3) == 0 {
+					f.t = &gty{kind: "ptr", elem: f.t}
+				}
+			}
+			parts := []string{}
 			if g.Rng.Intn(4) == 0 {
-				f.tag = "puppet:\"name=>'f_" + strings.ToLower(f.name) + "'\""
+				parts = append(parts, "name=>'f_"+strings.ToLower(f.name)+"'")
+			}
+			if i%2 == 1 && g.Rng.Intn(2) == 0 {
+				if lit, term := tagDefault(g.Rng, f.t); lit != "" {
+					parts = append(parts, "value=>"+lit)
+					f.dflt = term
+				}
+			}
+			if len(parts) > 0 {
+				f.tag = "puppet:\"" + strings.Join(parts, ", ") + "\""
 			}
 			t.fields = append(t.fields, f)
 		}
